@@ -1,6 +1,6 @@
 PROPS["C18"] = dict(
-    jobs=[job("asan", "c18_safety", flavour="asan", cases={Q: 7500, T: 500000}),
-          job("bounds", "c18_safety", flavour="fast", cases={Q: 25000, T: 2500000}),
+    jobs=[job("asan", "c18_safety", flavour="asan", cases={Q: 7500, T: 250000}),
+          job("bounds", "c18_safety", flavour="fast", cases={Q: 25000, T: 1000000}),
           # sustained audio traffic: the C16 direct histories, 2500 operations each (thousands of words through the transmit FIFO,
           # all periods), under ASan+UBSan
           job("audio-asan", "c16_btdmp", flavour="asan", cases={Q: 12, T: 400}, mode="direct", args={"ops": 2500, "prop": "C18"})],
